@@ -257,7 +257,10 @@ public:
     template<bool use_ascii> void write(std::ostream &os) const;
 
     //! \brief Restrict data between \b ibegin and \b iend entries.
-    void restrictData(int ibegin, int iend){ for(auto &d : data) d.value = std::vector<double>(d.value.begin() + ibegin, d.value.begin() + iend); }
+    void restrictData(int ibegin, int iend){
+        for(auto &d : data) d.value = std::vector<double>(d.value.begin() + ibegin, d.value.begin() + iend);
+        num_outputs = (size_t) (iend - ibegin); // the stored samples now have this many entries
+    }
 
     //! \brief Returns the maximum index of any of the stored tensors.
     int getMaxTensor() const;
